@@ -33,7 +33,7 @@ type splitChoice struct {
 func (e *Engine) GenFunc(key string) (vcs []*VC, res *FuncResult) {
 	con := e.Contracts[key]
 	fnKey := key
-	if i := strings.Index(key, "#"); i >= 0 {
+	if i := variantSep(key); i >= 0 {
 		fnKey = key[:i]
 	}
 	fn := e.funcByString(fnKey)
